@@ -24,6 +24,21 @@ CHECKS = {
     text="Exploration: all literal lists up to length 5 (quick) / 7 (thorough) with every polarity pattern, container type, operator and constant -2..n+2 are executed for CNF and OPB parents and decided over all 2^n assignments; mappings up to 3x3 with every sparse domain up to 6 possible pairs, binary mappings up to 3 -> 11; normalize_opb on 20k/200k seeded constraints.  Held means: no executed call disagreed with the arithmetic condition.",
     note="Trusts vmon/tt.py (self-checked against a naive evaluator on every start) and, for mappings, the group's index->variable call (C11).  Says nothing about lengths beyond the enumerated bound.",
     design="5/C04"),
+ "C05": dict(
+    technique="runtime monitoring: gadget functions written on truth-table masks give each original variable a derived table; F over derived tables vs exact model set of the transformed formula",
+    text="Exploration: every CNF with <= 2 variables (+ unused third) and <= 2 clauses of width <= 2 and seeded CNFs up to 4 variables x every transformation (xor, or, maj, eq, neq, one, exact/atleast/atmost/anybut with every K in -1..N+1, ite, lift, flip) under 16/20 new variables; xor/maj compression with every graph up to 8 possible edges and seeded larger; library calls and the '-T' command-line spelling; variable counts against the documented k*n, 3n, 2k*n, |R|, n.",
+    note="Trusts vmon/tt.py and the gadget definitions in C05.py (majority = at least half, lifting = exactly one selector and the selected copy).",
+    design="5/C05"),
+ "C08": dict(
+    technique="runtime monitoring: the same argv through cnfgen and pbgen in-process with equalised RNG state; names, counts and exact model sets (clause evaluator vs bit-sliced adder) compared; sampled assignments beyond the cap",
+    text="Exploration: every formula sub-command of the shared corpus (all option combinations, deterministic and random graph constructions, several RNG seeds for random ones) built by both tools; number of variables, name lists and model sets must coincide; 46 realistic-size command lines compared on sampled assignments and one-flip neighbours of found models.",
+    note="Trusts vmon/tt.py.  Equal RNG state before both runs is what makes random families comparable.  Whether pbgen returns an OPB object at all is C17's question, not this one's.",
+    design="5/C08"),
+ "C09": dict(
+    technique="runtime monitoring with a guarded certificate hook: Shuffle's attached witness (flips, permutation, clause map) is validated and the output reconstructed from it; hook-independent invariants and exhaustive renaming search for N <= 5",
+    text="Exploration: CNFs from 0 to 300 variables / 1000 clauses, all 27 fixed/shuffle/explicit argument combinations (lists, tuples, ranges), invalid explicit arguments (must raise ValueError), seeded and adversarial RNG, cnfshuffle with all 8 switch combinations (object and text path) and '-T shuffle' through cnfgen.  Output == input renamed by the reported witness position by position; explicit/fixed arguments applied exactly; counts, width multiset and model count preserved; for N <= 5 all N!*2^N signed renamings searched.",
+    note="Hook CNFGEN_VERIF=1 in cnfgen/transformations/shuffle.py (add-only).  Literal order inside a clause is not judged.",
+    design="5/C09"),
  "C13": dict(
     technique="runtime monitoring: result shape + planted assignments + decoded linear system vs truth table, against a reference enumeration of compatible clauses/parities; bounded RNG adversary forces the dense sampler",
     text="Exploration: RandomKCNF/RandomKXOR for k in 0..4, n in 0..6, m from 0 to max+2 (every m in thorough), 0..3 planted total assignments, seeded and adversarial randomness (sparse sampler driven to exhaustion so the dense path is observed), plus the randkcnf/randkxor command lines.  Each call is judged for counts, distinctness, width, planted assignments, model set = solutions of the decoded system and 'ValueError exactly when infeasible'.",
